@@ -155,9 +155,11 @@ def laguerre_der(n, alpha, x):
 
     """
     # see wiki
-    # d^k/dx^k L_n^alpha = (-1)^k L_(n-k)^(alpha+k)
+    # d^k/dx^k L_n^alpha = (-1)^k L_(n-k)^(alpha+k), and zero when k > n
     k = 1
-    return laguerre(n-k, alpha+k, x)
+    if n < k:
+        return np.zeros_like(x)
+    return (-1) ** k * laguerre(n-k, alpha+k, x)
 
 
 def laguerre_der_seq(ns, alpha, x):
@@ -180,6 +182,11 @@ def laguerre_der_seq(ns, alpha, x):
         d/dx of generalized laguerre polynomials evaluated at the given points
 
     """
+    # d^k/dx^k L_n^alpha = (-1)^k L_(n-k)^(alpha+k), and zero when k > n
     k = 1
-    ns = [n-k for n in ns]
-    return laguerre_seq(ns, alpha+k, x)
+    ns = list(ns)
+    out = np.zeros((len(ns), *x.shape), dtype=x.dtype)
+    keep = [i for i, n in enumerate(ns) if n >= k]
+    if keep:
+        out[keep] = (-1) ** k * laguerre_seq([ns[i]-k for i in keep], alpha+k, x)
+    return out
